@@ -35,7 +35,7 @@ applied to `normalize_url`'s tuple of the record the modelled parser returns -/
 theorem fp_split_grammar (puny : Str → Str) (trie : SNode Str) (s : Bool) (g : UrlG) (u : Str)
     (po : Option Nat) (hg : InClassOf true g (lower u)) (hpo : portVal g.port = some po) :
     fingerprintUrlStringSplit puny id trie s u =
-      fpOfParsed (stringEnv puny id trie) s g.proto.hasProto (g.record po) := by
+      (fpOfParsed (stringEnv puny id trie) s g.proto.hasProto (g.record po)).map .inr := by
   rw [fingerprintUrlStringSplit_eq, fp_factor]
   have := normalizeUrlSplit_grammar puny fpOpts true g (lower u) hg
   have e : normalizeUrlSplit (stringEnv puny id trie).puny (stringEnv puny id trie).parse
@@ -91,8 +91,9 @@ theorem fp_port_string (puny : Str → Str) (trie : SNode Str) (s : Bool) (g : U
     have h1 : ({ g with port := p' } : UrlG).record k =
         { ({ g.record po with port := k } : Parsed) with netloc := ({ g with port := p' } : UrlG).netloc } := rfl
     rw [h1, fpOfParsed_netloc]
-    exact fp_port_irrelevant (stringEnv puny id trie) (stringEnv_acc puny trie) s _ (g.record po) k hs
-      (portVal_ok hpo) (portVal_ok hk)
+    exact congrArg (Except.map Sum.inr)
+      (fp_port_irrelevant (stringEnv puny id trie) (stringEnv_acc puny trie) s _ (g.record po) k hs
+      (portVal_ok hpo) (portVal_ok hk))
   exact ⟨e, fp_string_of_split puny trie s _ _ e⟩
 
 /-! ## a leading language / country label -/
@@ -143,9 +144,10 @@ theorem fp_lang_label_string_partial (puny : Str → Str) (trie : SNode Str) (s 
       simp only [UrlG.record, hh']
     rw [h1, fpOfParsed_netloc]
     have hph : (g.record po).hostname = some (lower g.host) := hh
-    exact fp_lang_label_partial (stringEnv puny id trie) (stringEnv_acc puny trie) (stringEnv_cc puny trie)
+    exact congrArg (Except.map Sum.inr)
+      (fp_lang_label_partial (stringEnv puny id trie) (stringEnv_acc puny trie) (stringEnv_cc puny trie)
       s _ (g.record po) (lower w) (lower g.host) hph (langShape_lower ccLaws_isCountry hw) hsafe
-      (portVal_ok hpo) hlabels hamp hsingle hdf
+      (portVal_ok hpo) hlabels hamp hsingle hdf)
   exact ⟨e, fp_string_of_split puny trie s _ _ e⟩
 
 /-! ## `gl` / `hl` query items -/
@@ -170,8 +172,9 @@ theorem fp_gl_hl_string (puny : Str → Str) (trie : SNode Str) (s : Bool) (g : 
     have e1 : g.record po = { ({ g with query := some q' } : UrlG).record po with query := q } := by
       simp [UrlG.record, hq, UrlG.hostname, UrlG.netloc, UrlG.hostPart]
     rw [e1]
-    exact fp_gl_hl_fingerprint (stringEnv puny id trie) s _ (({ g with query := some q' } : UrlG).record po)
-      q xs ys it (by rw [fixedQuery_eq]; exact h1) (by rw [fixedQuery_eq]; exact h2) hamp hkey
+    exact congrArg (Except.map Sum.inr)
+      (fp_gl_hl_fingerprint (stringEnv puny id trie) s _ (({ g with query := some q' } : UrlG).record po)
+      q xs ys it (by rw [fixedQuery_eq]; exact h1) (by rw [fixedQuery_eq]; exact h2) hamp hkey)
   exact ⟨e, fp_string_of_split puny trie s _ _ e⟩
 
 /-! ## shape of the result -/
@@ -183,9 +186,10 @@ theorem fp_shape_whole (puny : Str → Str) (trie : SNode Str) (s : Bool) (g : U
     (po : Option Nat) (hpo : portVal g.port = some po)
     (hs : HostSafe (g.hostname.map (normHost puny fpOpts)))
     (hg : InClassOf true g (lower u)) (r : Split)
-    (h : fingerprintUrlStringSplit puny id trie s u = .ok r) :
+    (h : fingerprintUrlStringSplit puny id trie s u = .ok (.inr r)) :
     r.scheme = [] ∧ ∃ host : Option Str, r.netloc = unsplitNetloc none none host none := by
   rw [fp_split_grammar puny trie s g u po hg hpo] at h
+  replace h := map_inr_ok h
   obtain ⟨h1, host, _, h2, _⟩ := fp_shape (stringEnv puny id trie) (stringEnv_acc puny trie) s _
     (g.record po) r hs (portVal_ok hpo) h
   exact ⟨h1, host, h2⟩
